@@ -8,6 +8,10 @@ from pyvc.interp import SymRat
 MODS = ("pysnark.runtime", "pysnark.boolean", "pysnark.fixedpoint", "pysnark.branching")
 
 # argument structures: leaves 'i' int, 'f' float (concrete 1.5), 's' str (non-numeric), 'L' an already-secret LinComb
+class Word(int):
+    """an int subclass (as IntEnum members are): still a numeric argument"""
+
+
 ARGS = [
     ("i",),
     ("i", ["i", "i"]),
@@ -15,6 +19,8 @@ ARGS = [
     ("f", "i"),
     ("s", "i"),
     (),
+    ("i", "w"),              # 'w': an instance of an int subclass
+    ("w", ["i"]),
 ]
 # result structures: 'L' secret int, 'F' secret fixed-point, 'B' secret boolean, 'k' plain int, 'n' None
 # 'S': the SAME secret object as the previous secret leaf (a wire reported twice gets two outputs, each tied)
@@ -83,6 +89,8 @@ class Snark(Contract):
             n[0] += 1
             if kind == "i":
                 return c.public_int("arg%d" % n[0])
+            if kind == "w":
+                return Word(40 + n[0])
             if kind == "f":
                 return 1.5
             return "text"
@@ -209,7 +217,15 @@ def same_shape(a, b):
     if isinstance(a, dict): return isinstance(b, dict) and list(a) == list(b) and all(same_shape(a[k], b[k]) for k in a)
     return not isinstance(b, (list, tuple, dict))
 
-args = build(ARGS, lambda k: next(ints) if k == "i" else (1.5 if k == "f" else "text"))
+class Word(int):
+    pass
+_n = [0]
+def _arg(k):
+    _n[0] += 1
+    if k == "i": return next(ints)
+    if k == "w": return Word(40 + _n[0])
+    return 1.5 if k == "f" else "text"
+args = build(ARGS, _arg)
 state = {}
 def body(*a, **k):
     state["pub_at_entry"] = list(be.pubvals); state["priv_at_entry"] = len(be.privvals)
